@@ -137,7 +137,12 @@ class ThreadWorker(Worker):
             self._result = (False, e)
             logger.exception('Exception occurred while running the main function')
         finally:
-            self._cleanup()
+            try:
+                self._cleanup()
+            except WorkerTerminatedError:
+                # terminate() landed inside the cleanup itself (e.g. before the end-of-stream marker of a persistent
+                # worker was written): run it again, it skips what has been completed
+                self._cleanup()
 
     def _cleanup(self):
         pass
